@@ -7,8 +7,9 @@ BACKENDS = {
     'mongo': 'SortedByUid',
 }
 INT_UIDS = {'memory', 'redis_pickle', 'redis_json'}
-BAD_ADD = {'memory', 'sqlite', 'redis_pickle'}
+BAD_ADD = {'memory', 'sqlite', 'redis_pickle', 'mongo'}
 BAD_UPDATE = {'sqlite', 'redis_pickle'}
+COPYING = {'sqlite', 'redis_pickle', 'redis_json', 'mongo'}      # get() hands out a fresh object
 
 
 class Handle:
@@ -77,14 +78,19 @@ def tagged_policy(key, tag, bad=None):
     uid = uid_of(key)
     if bad == 'unhashable_uid':
         uid = [uid]
-    return Policy(uid, actions=['a%d' % tag], subjects=['s'], resources=['r'], effect='allow', description=desc)
+    resources = ['r']
+    if bad == 'unbalanced_element':
+        resources = ['r', '<<r>']          # compile_regex raises InvalidPatternError while the row is being built
+    return Policy(uid, actions=['a%d' % tag], subjects=['s'], resources=resources, effect='allow', description=desc)
 
 
 def bad_kind(backend, op):
     if backend == 'memory':
         return 'unhashable_uid'
     if backend == 'sqlite':
-        return 'dict_description'
+        return 'dict_description' if op[2] % 2 else 'unbalanced_element'
+    if backend == 'mongo':
+        return 'unbalanced_element'
     if backend == 'redis_pickle':
         return 'lambda_description'
     return None
@@ -95,7 +101,8 @@ def render_policy(p):
         key = key_of(p.uid)
         d = p.description
         if isinstance(d, str) and d.startswith('t') and list(p.actions) == ['a' + d[1:]] and \
-                list(p.subjects) == ['s'] and list(p.resources) == ['r'] and p.effect == 'allow':
+                list(p.subjects) == ['s'] and list(p.resources) == ['r'] and p.effect == 'allow' and \
+                dict(p.context) == {}:
             return '%s=%s' % (s_pstr(key), d[1:])
         return '%s=CORRUPT(%r,%r)' % (s_pstr(key), d, list(p.actions))
     except Exception as e:  # noqa
@@ -128,6 +135,21 @@ def do_op(st, backend, op):
         if kind == 'delete':
             st.delete(uid_of(op[1]))
             return 'ok'
+        if kind == 'poke':
+            # read a policy and modify the object we were given, in place: a storage that hands out copies must
+            # not be affected (the model treats this as a read)
+            from vakt.rules.logic import Any
+            p = st.get(uid_of(op[1]))
+            if p is None:
+                return 'get:-'
+            r = render_policy(p)
+            p.context['poked'] = Any()
+            try:
+                p.actions.append('poked')
+                p.resources[0:0] = ['poked']
+            except Exception:  # noqa
+                pass
+            return 'get:' + r.split('=', 1)[1] if r.startswith(s_pstr(op[1]) + '=') else 'get:WRONG(%s)' % r
         if kind == 'get':
             p = st.get(uid_of(op[1]))
             if p is None:
@@ -161,7 +183,7 @@ def e_op(op):
         return '(Update %s %s %s)' % (e_pstr(op[1]), e_N(op[2]), e_bool(op[3]))
     if kind == 'delete':
         return '(Delete %s)' % e_pstr(op[1])
-    if kind == 'get':
+    if kind in ('get', 'poke'):
         return '(Get %s)' % e_pstr(op[1])
     if kind == 'get_all':
         return '(GetAll %s %s)' % (e_Z(op[1]), e_Z(op[2]))
@@ -192,7 +214,7 @@ def gen_ops(rng, backend, n, keys, allow_bad=True, mut_share=0.6):
             ops.append(['delete', k])
             present.discard(k)
         elif r < mut_share + 0.12:
-            ops.append(['get', k])
+            ops.append(['poke' if (backend in COPYING and rng.random() < 0.5) else 'get', k])
         elif r < mut_share + 0.3:
             ops.append(['get_all', rng.randint(-1, len(keys) + 1), rng.randint(-1, len(keys) + 1)])
         else:
